@@ -436,6 +436,111 @@ class Recorder:
             ctx.alpn_cb, ctx.get_session_ticket_cb = self._cbs
 
 
+class ClassRecorder(Recorder):
+    """The same recording for WHATEVER tls.Context a QuicConnection uses during one receive_datagram() call -- including one
+    created inside the call by _initialize() (server first flight, Retry, Version Negotiation): the hooks are installed on the
+    tls.Context class and on the connection's callbacks (_alpn_handler, _session_ticket_fetcher)."""
+
+    def __init__(self, tls, conn):
+        super().__init__(tls, None)
+        self.conn = conn
+
+    def install(self):
+        from aioquic.quic.connection import QuicConnectionError
+        tls, me, conn = self.tls, self, self.conn
+        C = tls.Context
+        real_handle, real_dispatch = C.handle_message, C._handle_reassembled_message
+        self.real_decode = real_decode = tls.decode_public_key
+        self.real_verify = real_verify = tls.verify_certificate
+        self._class = (real_handle, real_dispatch)
+
+        def handle(ctx, data, output_buf):
+            me.ctx = ctx
+            me.records = []
+            me.calls.append(me.records)
+            try:
+                return real_handle(ctx, data, output_buf)
+            except tls.AlertHandshakeFailure as e:
+                if "PSK validation failed" in str(e) and me.records:
+                    me.records[-1]["binder"] = 0
+                raise
+
+        def dispatch(ctx, message_type, input_buf, output_buf):
+            me.ctx = ctx
+            me._new_record(message_type, input_buf)
+            return real_dispatch(ctx, message_type=message_type, input_buf=input_buf, output_buf=output_buf)
+
+        def decode(key_share):
+            try:
+                pk = real_decode(key_share)
+            except tls.AlertIllegalParameter:
+                me.rec.setdefault("share", []).append(1)
+                raise
+            me.rec.setdefault("share", []).append(0 if (pk is None or _exchange_ok(pk)) else 2)
+            return pk
+
+        def verify(**kw):
+            try:
+                real_verify(**kw)
+            except tls.AlertCertificateExpired:
+                me.rec["vcert"] = 1
+                raise
+            except tls.AlertBadCertificate:
+                me.rec["vcert"] = 2
+                raise
+            except Exception as e:
+                me.rec["vcert"] = 5 if type(e).__name__ == "CertificateError" else 4
+                raise
+
+        C.handle_message = handle
+        C._handle_reassembled_message = dispatch
+        tls.decode_public_key = decode
+        tls.verify_certificate = verify
+        real_alpn = conn._alpn_handler
+        real_fetch = conn._session_ticket_fetcher
+
+        def alpn(proto):
+            try:
+                return real_alpn(proto)
+            except QuicConnectionError as e:
+                if int(e.error_code) != 0x100 + 109:
+                    me.rec["tp"] = (int(e.error_code), -1 if e.frame_type is None else int(e.frame_type))
+                raise
+        conn._alpn_handler = alpn
+        self._had_tls = getattr(conn, "tls", None)
+        if self._had_tls is not None:
+            self._old_cb = (self._had_tls.alpn_cb, self._had_tls.get_session_ticket_cb)
+            self._had_tls.alpn_cb = alpn
+        if real_fetch is not None:
+            def fetch(label):
+                t = real_fetch(label)
+                me.rec["ticket"] = int(t.cipher_suite) if (t is not None and t.is_valid) else -1
+                return t
+            conn._session_ticket_fetcher = fetch
+            if self._had_tls is not None:
+                self._had_tls.get_session_ticket_cb = fetch
+        self._real_cbs = (real_alpn, real_fetch)
+        return self
+
+    def uninstall(self):
+        tls, conn = self.tls, self.conn
+        C = tls.Context
+        C.handle_message, C._handle_reassembled_message = self._class
+        tls.decode_public_key = self.real_decode
+        tls.verify_certificate = self.real_verify
+        for name in ("_alpn_handler", "_session_ticket_fetcher"):
+            if name in conn.__dict__ and callable(conn.__dict__[name]) and getattr(conn.__dict__[name], "__name__", "") in ("alpn", "fetch"):
+                del conn.__dict__[name]
+        real_alpn, real_fetch = self._real_cbs
+        if real_fetch is not None:
+            conn._session_ticket_fetcher = real_fetch
+        cur = getattr(conn, "tls", None)
+        if cur is not None:
+            cur.alpn_cb = conn._alpn_handler
+            if real_fetch is not None:
+                cur.get_session_ticket_cb = real_fetch
+
+
 def run_real(world, data):
     """Feed `data` to the subject.  Returns (oracle records, outcome tokens, exception or None)."""
     from aioquic.quic.connection import QuicConnectionError
